@@ -100,6 +100,30 @@ type pool struct {
 	deaths  int
 	flaky   int
 	mu      sync.Mutex
+	hangs   map[string]int // confirmed hangs per decode target
+	skipped int
+}
+
+// maxHangs: after this many confirmed hangs of one decode target its remaining operations are not executed
+// (every one of them would cost a watchdog period); the hangs found are reported with their exact input
+const maxHangs = 2
+
+// hangKey is the decode target of an op line (entry point resp. primitive)
+func hangKey(op string) string {
+	t := strings.Fields(op)
+	switch {
+	case len(t) > 2 && t[0] == "p":
+		return "p:" + t[2]
+	case len(t) > 1:
+		return t[1]
+	}
+	return op
+}
+
+func (p *pool) skip(op string) bool {
+	p.mu.Lock()
+	defer p.mu.Unlock()
+	return p.hangs[hangKey(op)] >= maxHangs
 }
 
 func newPool(timeout time.Duration) *pool {
@@ -110,7 +134,7 @@ func newPool(timeout time.Duration) *pool {
 	if n < 2 {
 		n = 2
 	}
-	return &pool{n: n, timeout: timeout}
+	return &pool{n: n, timeout: timeout, hangs: map[string]int{}}
 }
 
 func classifyDeath(stderr string) string {
@@ -122,14 +146,16 @@ func classifyDeath(stderr string) string {
 }
 
 // runAlone executes one op in a fresh worker
-func (p *pool) runAlone(op string) opResult {
+func (p *pool) runAlone(op string) opResult { return p.runAloneT(op, p.timeout) }
+
+func (p *pool) runAloneT(op string, timeout time.Duration) opResult {
 	w, err := startWorker()
 	if err != nil {
 		return opResult{dead: "crash", stderr: "cannot start worker: " + err.Error()}
 	}
 	defer w.kill()
 	io.WriteString(w.in, op+"\n")
-	timer := time.NewTimer(p.timeout)
+	timer := time.NewTimer(timeout)
 	defer timer.Stop()
 	select {
 	case l, ok := <-w.lines:
@@ -180,6 +206,19 @@ func (p *pool) exec(ops []string) []opResult {
 			for j := range jobs {
 				i := j.lo
 				for i < j.hi {
+					if p.skip(ops[i]) {
+						res[i] = opResult{dead: "skipped"}
+						p.mu.Lock()
+						p.skipped++
+						p.mu.Unlock()
+						i++
+						continue
+					}
+					// stream up to the next op that is to be skipped
+					hi := i + 1
+					for hi < j.hi && !p.skip(ops[hi]) {
+						hi++
+					}
 					if w == nil {
 						var err error
 						w, err = startWorker()
@@ -191,7 +230,7 @@ func (p *pool) exec(ops []string) []opResult {
 					}
 					// stream the remaining ops of the chunk
 					var sb bytes.Buffer
-					for _, o := range ops[i:j.hi] {
+					for _, o := range ops[i:hi] {
 						sb.WriteString(o)
 						sb.WriteByte('\n')
 					}
@@ -199,7 +238,7 @@ func (p *pool) exec(ops []string) []opResult {
 					go func(b []byte) { cur.in.Write(b) }(sb.Bytes())
 					timer := time.NewTimer(p.timeout)
 					broken := false
-					for i < j.hi && !broken {
+					for i < hi && !broken {
 						if !timer.Stop() {
 							select {
 							case <-timer.C:
@@ -238,17 +277,20 @@ func (p *pool) exec(ops []string) []opResult {
 							i++
 							broken = true
 						case <-timer.C:
+							// no answer within the watchdog period: kill the worker and confirm alone with a longer period
 							w.kill()
 							w = nil
 							p.mu.Lock()
 							p.deaths++
 							p.mu.Unlock()
-							again := p.runAlone(ops[i])
+							again := p.runAloneT(ops[i], 3*p.timeout)
+							p.mu.Lock()
 							if again.dead == "" {
-								p.mu.Lock()
 								p.flaky++
-								p.mu.Unlock()
+							} else if again.dead == "hang" {
+								p.hangs[hangKey(ops[i])]++
 							}
+							p.mu.Unlock()
 							res[i] = again
 							i++
 							broken = true
